@@ -453,7 +453,11 @@ fn write_evidence(sc: &dyn Scenario, b: &Batch, seed: u64, tier: Tier, threads: 
     cov.set("known_findings_hit", J::Arr(known_hits.iter().map(|s| J::str(&**s)).collect()));
     cov.set("raw_violating_runs", J::Int(b.violation_count as i64));
     #[cfg(feature = "tracing")]
-    cov.set("feature_set", J::str("tracing (rosu-map/tracing + formatting subscriber)"));
+    {
+        cov.set("feature_set", J::str("tracing (rosu-map/tracing + formatting subscriber)"));
+        cov.set("tracing_events_formatted", J::Int(tracesub::EVENTS.load(std::sync::atomic::Ordering::Relaxed) as i64));
+        cov.set("tracing_bytes_formatted", J::Int(tracesub::BYTES.load(std::sync::atomic::Ordering::Relaxed) as i64));
+    }
     #[cfg(not(feature = "tracing"))]
     cov.set("feature_set", J::str("default"));
 
